@@ -982,16 +982,13 @@ impl Transaction {
             return false;
         }
 
-        if self
-            .from
-            .iter()
-            .map(|slip| slip.utxoset_key)
-            .collect::<Vec<_>>()
-            .len()
-            != self.from.len()
-        {
-            error!("ERROR: transaction : {} has duplicate inputs", self);
-            return false;
+        // no value-carrying output may be named twice as an input
+        let mut input_keys: AHashSet<SaitoUTXOSetKey> = Default::default();
+        for slip in self.from.iter() {
+            if slip.amount > 0 && !input_keys.insert(slip.utxoset_key) {
+                error!("ERROR: transaction : {} has duplicate inputs", self);
+                return false;
+            }
         }
 
         // Fee Transactions are validated in the block class. There can only
